@@ -55,3 +55,8 @@ Theorem C05_add_sub_cancel_structural : forall a b,
   exists ab, num_add a b = Ok ab /\ num_sub ab b = Ok a.
 Proof. exact add_sub_cancel_structural. Qed.
 Print Assumptions C05_add_sub_cancel_structural.
+(* a / a is Integer 1 for every non-zero normalised exact a (Integer, Rational, Complex) *)
+Theorem C05_div_self_structural : forall a x,
+  num_wf a = true -> valQi a = Some x -> ~ qi_is_zero x -> num_div a a = Ok (NInt 1).
+Proof. exact div_self_structural. Qed.
+Print Assumptions C05_div_self_structural.
